@@ -146,6 +146,10 @@ static inline bool has_bottleneck(const PlainSystem& s, const PVar& v, bool shar
   for (auto const& e : v.el) {
     if (e.w <= 0 || not cnst_saturated(s, e.c))
       continue;
+    // a fatpipe limits each of its users separately: a variable whose own weighted rate reaches the capacity is
+    // bottlenecked there whatever the others get (accepted in addition to the literal condition)
+    if (not s.c[e.c].shared && e.w * v.value >= s.c[e.c].bound * (1 - 4 * EPS) - 1e-12)
+      return true;
     double mine = share_based ? (weight_kind ? e.maxw : e.w) * v.penalty * v.value : v.penalty * v.value;
     bool largest = true;
     for (auto const& o : s.v) {
@@ -187,7 +191,7 @@ static inline Verdict check_c16_bottleneck(const PlainSystem& s, C16Stats* st = 
       st->below_bound++;
     bool ok = bmf ? (has_bottleneck(s, v, true, 0) || has_bottleneck(s, v, true, 1)) : has_bottleneck(s, v, false, 0);
     if (not ok)
-      return {"no-bottleneck",
+      return {v.value > 0 ? "no-bottleneck(rate>0)" : "no-bottleneck(rate=0)",
               fmt("variable %d (penalty %g, rate %.9g, bound %g) is below its bound and has no saturated constraint "
                   "on which its penalty-weighted %s is the largest",
                   v.id, v.penalty, v.value, v.bound, bmf ? "share" : "rate")};
